@@ -45,8 +45,9 @@ def F1(ctx):
         ctx.missing("F1", fk, "no dispatch on the poll result")
         return
     b, t, e = sw
-    pend = [tb for (v, tb) in t["targets"] if variant_of_discr_value(prog, e, v) == "Pending"]
-    ready = [tb for (v, tb) in t["targets"] if variant_of_discr_value(prog, e, v) == "Ready"]
+    edges = switch_edges_by_variant(prog, t, e)
+    pend = [edges["Pending"]] if "Pending" in edges else []
+    ready = [edges["Ready"]] if "Ready" in edges else []
     ok_loop = False
     if pend:
         seen = set()
